@@ -39,6 +39,9 @@ YearV == [ absent |-> None,
            text007 |-> Some([type |-> TEXT, data |-> <<48, 48, 55>>]),
            binmax |-> Some([type |-> BINARY, data |-> <<255, 255, 255, 255>>]),
            \* the binary form whose four bytes happen to be ASCII digits: still the big-endian number
+           \* big-endian integer type (21): not one of the two forms of a year
+           int0 |-> Some([type |-> <<21>>, data |-> <<>>]),
+           int4 |-> Some([type |-> <<21>>, data |-> <<0, 0, 7, 216>>]),
            bindigits |-> Some([type |-> BINARY, data |-> <<50, 48, 48, 56>>]) ]
 PosterV == [ absent |-> None, empty |-> Some([type |-> IMAGE, data |-> <<>>]), one |-> Some([type |-> IMAGE, data |-> <<137>>]),
              big |-> Some([type |-> IMAGE, data |-> Bin(300)]) ]
@@ -66,6 +69,9 @@ Items ==
                           \o <<[cc |-> <<108, 100, 101, 115>>, type |-> TEXT, data |-> <<108, 111, 110, 103>>],
                                [cc |-> <<115, 100, 101, 115>>, type |-> TEXT, data |-> <<115>>],
                                [cc |-> <<116, 105, 116, 108>>, type |-> TEXT, data |-> <<116>>]>>
+    \* further children inside the items themselves: a `name` box after the data box of every odd item,
+    \* a `free` box before the data box of every even one
+    [] unk = "kids" -> [i \in 1..Len(k) |-> IF i % 2 = 1 THEN k[i] @@ [post |-> <<0, 0, 0, 0, 120, 121>>] ELSE k[i] @@ [pre |-> <<1, 2>>]]
     [] unk = "between" -> (IF Len(k) > 0 THEN <<k[1]>> ELSE <<>>) \o <<UnkItem(1), UnkItem(2)>> \o (IF Len(k) > 0 THEN Tail(k) ELSE <<>>)
 
 ShapeV == [ mdir |-> [present |-> "full", fullbox |-> TRUE, handler |-> MDIR],
